@@ -304,6 +304,37 @@ func checkC11(c *Ctx) {
 						if ret, isRet := arm.Instrs[len(arm.Instrs)-1].(*ssa.Return); isRet && ends[ret] && !isNilConst(retResult(ret, 1)) {
 							ok = true
 						}
+						// the wait loop as a helper that reports (result, false) when the context ends: its
+						// caller turns `false` into the error return of the API call
+						if ret, isRet := arm.Instrs[len(arm.Instrs)-1].(*ssa.Return); isRet && len(ret.Results) >= 2 {
+							last := len(ret.Results) - 1
+							k, isK := retResult(ret, last).(*ssa.Const)
+							if cs := helperCall(sel.Parent()); cs != nil && isK && k.Value != nil && k.Value.String() == "false" && cs.Referrers() != nil {
+								for _, rf := range *cs.Referrers() {
+									e2, isE2 := rf.(*ssa.Extract)
+									if !isE2 || e2.Index != last || e2.Referrers() == nil {
+										continue
+									}
+									for _, b2 := range cs.Parent().Blocks {
+										iff2, isIf2 := b2.Instrs[len(b2.Instrs)-1].(*ssa.If)
+										if !isIf2 {
+											continue
+										}
+										f2 := factOf(Guard{iff2, true})
+										if f2.Op != 0 || stripNoParam(f2.Bool) != ssa.Value(e2) {
+											continue
+										}
+										falseArm := b2.Succs[1]
+										if !f2.True {
+											falseArm = b2.Succs[0]
+										}
+										if r2, isR2 := falseArm.Instrs[len(falseArm.Instrs)-1].(*ssa.Return); isR2 && ends[r2] && !isNilConst(retResult(r2, 1)) {
+											ok = true
+										}
+									}
+								}
+							}
+						}
 					}
 				}
 			}
